@@ -19,6 +19,8 @@ def instances(tier):
     for n in ((2,) if tier == "quick" else (2, 3)):
         L.append(Inst("rows-joint-vs-single-a8-n%d" % n, "C12/rows.c", {"W": 8, "NROWS": n}, link=[], unwind=12, timeout=1800, checks=["--bounds-check", "--pointer-check"],
                       desc={"what": "rasterize_edges_8 over several sample rows (span-fill optimisation active) == the same rows rasterised one at a time; edge positions and per-row steps symbolic"}))
+    # MEASURED: -DW=14 -DNROWS=3 (wide enough for two disjoint spans of more than 4 pixels: a pending fill accumulated over two rows, then a
+    # jump) finds C12-seed1 in 521 s (seeded/C12-seed1/check.log), but gives no verdict on the unchanged tree within 1300 s - not registered.
     return L
 
 
